@@ -107,7 +107,7 @@ class SenseTexts(Unit):
         out = []
         for (asc, ascq), text in sorted(S.ASC_SAMPLE.items()):
             for rc in (0x70, 0x72, 0x71, 0x73):
-                for key in (0x5, 0x2):
+                for key in (0x5, 0x2, 0x0, 0xB):
                     if rc in (0x70, 0x71):
                         sense = bytes([rc, 0, key, 0, 0, 0, 0, 10, 0, 0, 0, 0, asc, ascq, 0, 0, 0, 0])
                     else:
